@@ -704,6 +704,12 @@ int main(int argc, char** argv)
     if (const char* e = getenv("VERIF_SEED")) seed = strtoull(e, nullptr, 10);
     seed = strtoull(arg_val(argc, argv, "--seed", std::to_string(seed).c_str()), nullptr, 10);
 
+    if (arg_flag(argc, argv, "--print"))
+    {
+        uint64_t rs = strtoull(arg_val(argc, argv, "--print", "1"), nullptr, 10);
+        printf("%s", script_to_text(generate_script(prop, rs, tier)).c_str());
+        return 0;
+    }
     if (arg_flag(argc, argv, "--show"))
     {
         // print the script of one run and execute it in-process
